@@ -343,6 +343,13 @@ def delete_coverage(prog, rep):
 
 
 def caches_follow(prog, rep):
+    # the Datastore methods report a missing bucket the way the storage does (ValueError): looking the bucket up through
+    # self[...] first turns that into the KeyError of __getitem__
+    for nm_ in ("update_bucket", "delete_bucket"):
+        f_ = prog.func(f"Datastore.{nm_}")
+        for x_ in walk_with_nested_exprs(f_.node):
+            if isinstance(x_, ast.Subscript) and isinstance(x_.ctx, ast.Load) and isinstance(x_.value, ast.Name) and x_.value.id == "self":
+                rep.violation("NOT-FOUND", f_.short, f"{norm(x_)[:40]}", f"`{norm(x_)[:40]}` goes through Datastore.__getitem__, which raises KeyError for an id that names no bucket: {nm_} of a bucket that does not exist now fails with KeyError instead of the ValueError the storage raises (the arguments of a logging call are evaluated at every log level)", f_.loc(x_))
     rep.rule("CACHES", "Datastore.delete_bucket evicts bucket_instances[id] before the backend delete on every path; Datastore.__getitem__ raises KeyError when the id is not in buckets(); PeeweeStorage.update_bucket_keys() follows BucketModel.create and the bucket delete on every normal path")
     fi = prog.func("Datastore.delete_bucket")
     g = cfg_of(fi)
